@@ -174,7 +174,8 @@ def cmd_check(args):
     # ------------------------------------------------------------------ evidence
     wall = time.time() - t0
     evals = agg["ok"] + agg["violation"] + agg["inconclusive"]
-    probes = {k: agg["counters"].get(k, 0) for k in getattr(driver, "PROBES", [])}
+    probe_names = list(getattr(driver, "PROBES", [])) + (list(getattr(driver, "PROBES_THOROUGH", [])) if tier == "thorough" else [])
+    probes = {k: agg["counters"].get(k, 0) for k in probe_names}
     cov = dict(
         evaluations=evals,
         distinct_nontrivial=len(agg["sigs"]),
